@@ -524,6 +524,12 @@ func (p *parser) stmt(st *stmt) {
 	case "alter":
 		p.need("table")
 		st.verb, st.table = "addcolumn", p.name()
+		if p.kw("drop") {
+			p.kw("column")
+			st.verb, st.ifne = "dropcolumn", p.kw("if", "exists")
+			st.defs = []coldef{{name: p.name()}}
+			break
+		}
 		p.need("add")
 		p.kw("column")
 		st.ifne, st.defs = p.kw("if", "not", "exists"), []coldef{p.coldef()}
@@ -1103,6 +1109,14 @@ func (r *run) stmt(st *stmt, data [][]Value) (*result, *pgErr) {
 			return nil, perr
 		}
 		return &result{tag: "ALTER TABLE"}, r.emit(effect{kind: 'a', table: st.table, col: tmp.cols[0], def: tmp.defs[0]})
+	case "dropcolumn":
+		if _, perr := t.col(st.defs[0].name); perr != nil {
+			if st.ifne {
+				return &result{tag: "ALTER TABLE"}, nil
+			}
+			return nil, perr
+		}
+		return &result{tag: "ALTER TABLE"}, r.emit(effect{kind: 'c', table: st.table, col: Column{Name: st.defs[0].name}})
 	case "droptable":
 		return &result{tag: "DROP TABLE"}, r.emit(effect{kind: 'r', table: st.table})
 	}
